@@ -30,6 +30,68 @@ fn one(rep: &mut Reporter, seed: u64, idx: u64) {
     let threshold = 1 + rng.usize(ndel);
     let repo = fx::repository(&storage, &ds, threshold, &format!("c28-{idx}"), if rng.bool() { Visibility::Public } else { Visibility::private([]) });
     let rid = repo.id;
+    // In half of the cases the delegate set changes after creation: a new identity revision (accepted by a
+    // majority of the delegates of the document it replaces) adds some of the other peers and/or drops an
+    // original delegate. "Delegate" in the property is a delegate of the *current* document.
+    let mut current: Vec<Dev> = delegates.clone();
+    if rng.bool() {
+        let evolved = guarded(|| -> Result<Vec<Dev>, String> {
+            let mut identity = radicle::cob::identity::Identity::load_mut(&repo).map_err(|e| e.to_string())?;
+            let mut next: Vec<Dev> = delegates.clone();
+            let mut raw_doc = identity.doc().clone().edit();
+            let nadd = if others.is_empty() { 0 } else { 1 + rng.usize(others.len().min(2)) };
+            for o in others.iter().take(nadd) {
+                raw_doc.delegate(fx::did(o));
+                next.push(o.clone());
+            }
+            if delegates.len() >= 2 && (nadd == 0 || rng.chance(1, 3)) {
+                // drop one original delegate (never the local node: its role does not matter for it)
+                let victim = 1 + rng.usize(delegates.len() - 1);
+                if delegates[victim].public_key() != local.public_key() {
+                    raw_doc.rescind(&fx::did(&delegates[victim])).map_err(|e| e.to_string())?;
+                    next.retain(|d| d.public_key() != delegates[victim].public_key());
+                }
+            }
+            raw_doc.threshold = raw_doc.threshold.min(next.len()).max(1);
+            let doc = raw_doc.verified().map_err(|e| e.to_string())?;
+            if doc == *identity.doc() {
+                return Ok(delegates.clone());
+            }
+            let rev = identity.update("change delegates", "verif", &doc, &delegates[0]).map_err(|e| e.to_string())?;
+            for d in delegates.iter().skip(1) {
+                if identity.current == rev {
+                    break;
+                }
+                identity.accept(&rev, d).map_err(|e| e.to_string())?;
+            }
+            if identity.current != rev {
+                return Err("revision not adopted".into());
+            }
+            repo.set_identity_head().map_err(|e| e.to_string())?;
+            Ok(next)
+        });
+        match evolved {
+            Ok(Ok(next)) => {
+                let got: BTreeSet<String> = repo.delegates().map(|ds| ds.iter().map(|d| d.as_key().to_string()).collect()).unwrap_or_default();
+                let want: BTreeSet<String> = next.iter().map(|d| d.public_key().to_string()).collect();
+                if got != want {
+                    rep.inconclusive("fixture: delegate set after the identity update is not the intended one", json!({"got": got, "want": want}));
+                    return;
+                }
+                if want != delegates.iter().map(|d| d.public_key().to_string()).collect::<BTreeSet<_>>() {
+                    rep.count("cases.delegate-set-changed-after-creation");
+                    if next.len() > delegates.len() || next.iter().any(|d| others.iter().any(|o| o.public_key() == d.public_key())) {
+                        rep.count("cases.delegate-added-after-creation");
+                    }
+                }
+                current = next;
+            }
+            other => {
+                rep.inconclusive("fixture: identity update failed", json!({"r": format!("{other:?}")}));
+                return;
+            }
+        }
+    }
     let raw = repo.raw();
     let base = fx::commit(raw, "base", &[]);
     // who gets refs / sigrefs
@@ -71,7 +133,7 @@ fn one(rep: &mut Reporter, seed: u64, idx: u64) {
     let ns_before = namespaces(&before);
     let local_ns = local.public_key().to_string();
     let local_sigrefs_before = before.contains_key(&format!("refs/namespaces/{local_ns}/refs/rad/sigrefs"));
-    let protected: BTreeSet<String> = delegates.iter().map(|d| d.public_key().to_string()).chain([local_ns.clone()]).collect();
+    let protected: BTreeSet<String> = current.iter().map(|d| d.public_key().to_string()).chain([local_ns.clone()]).collect();
     let path = raw.path().to_path_buf();
     let via_storage = rng.chance(2, 3);
     rep.eval();
@@ -84,7 +146,8 @@ fn one(rep: &mut Reporter, seed: u64, idx: u64) {
     });
     let call = if via_storage { "Storage::clean" } else { "Repository::clean" };
     let witness = |extra: serde_json_value| {
-        json!({"seed": seed, "idx": idx, "call": call, "delegates": delegates.iter().map(|d| d.public_key().to_string()).collect::<Vec<_>>(),
+        json!({"seed": seed, "idx": idx, "call": call, "delegates_at_creation": delegates.iter().map(|d| d.public_key().to_string()).collect::<Vec<_>>(),
+               "delegates": current.iter().map(|d| d.public_key().to_string()).collect::<Vec<_>>(),
                "local": local_ns, "local_is_delegate": local_is_delegate, "local_sigrefs": local_sigrefs_before,
                "namespaces_before": ns_before, "detail": extra})
     };
